@@ -132,15 +132,13 @@ def dialect_encoder_pairings(repo):
         if isinstance(val, ast.Call) and isinstance(val.func, ast.Name) and repo.has_cls(val.func.id):
             inst[name] = val.func.id
     d = mod.assigns["dialects"]
-    if isinstance(d, ast.Call):
-        for kw in d.keywords:
-            row = kw.value
-            if not isinstance(row, ast.Call):
-                continue
-            for k in row.keywords:
-                if k.arg == "encoder" and isinstance(k.value, ast.Call) and repo.has_cls(norm(k.value.func)):
-                    a = {x.arg: norm(x.value) for x in k.value.keywords}
+    from .core import dict_entries
+    if dict_entries(d) is not None:
+        for _rname, row in dict_entries(d):
+            for karg, kvalue in (dict_entries(row) or []):
+                if karg == "encoder" and isinstance(kvalue, ast.Call) and repo.has_cls(norm(kvalue.func)):
+                    a = {x.arg: norm(x.value) for x in kvalue.keywords}
                     g, dd = inst.get(a.get("grammar")), inst.get(a.get("decoder"))
                     if g and dd:
-                        out.append((norm(k.value.func), g, dd))
+                        out.append((norm(kvalue.func), g, dd))
     return out
